@@ -21,6 +21,37 @@ CHECKS = {
     ),
 }
 
+CHECKS["C01"] = dict(
+    category="model_checking",
+    text="CTFE.tla models add-chain / add-pre-chain over the de-duplicating backend together with clock ticks, batch "
+         "sequencing and all read endpoints; TLC checks exhaustively (3-4 certificates, clock 0..3, tree <= 4) that "
+         "duplicates repeat the stored timestamp and that every SCT binds the stored entry. Thousands of simulated "
+         "behaviours are replayed into a real ctfe.Instance: the QueueLeafRequest (leaf value, identity hash, extra "
+         "data) is compared with an independent RFC 6962 encoder applied to an independently de-poisoned TBS, the SCT "
+         "id / timestamp / signature are verified with std crypto, RequestLog.IssueSCT/Status are compared.",
+    design="4/C01",
+    note="reference backend instead of Trillian+SQL; certificate shapes limited to what std x509.CreateCertificate issues "
+         "(9 chain shapes incl. pre-issuer, root omitted/included, 4 leaf key types, ECDSA and RSA log keys); hashes and "
+         "signatures assumed sound.",
+    technique="TLA+ spec + TLC exhaustive model checking; spec->code replay of simulated behaviours with independent "
+              "encoders and std crypto as oracle",
+)
+CHECKS["C06"] = dict(
+    category="model_checking",
+    text="CTFE.tla: all eight endpoints as actions over an append-only backend; TLC checks AppendOnly, STHFaithful, "
+         "SingleIndex, QueueSound exhaustively. Simulated histories (fresh/duplicate submissions, sequencing batches, "
+         "every read with in- and out-of-range parameters) are replayed into a real ctfe.Instance: every STH is "
+         "verified under the log key and against the backend root (ns->ms), every served consistency / inclusion proof "
+         "is verified with the harness' own RFC 9162 verifiers, entries are compared byte for byte, every pair of "
+         "served STHs must be linked by a served proof, and every certificate with an SCT must be found by the "
+         "client-computed leaf hash at exactly one index.",
+    design="4/C06",
+    note="reference backend (contract of Trillian's log RPC server v1.7.1) instead of Trillian+SQL; sequential "
+         "histories (requests of one behaviour are issued one after another); tree sizes <= 5 in replay.",
+    technique="TLA+ spec + TLC exhaustive model checking; spec->code replay with real signature and Merkle proof "
+              "verification by independent code",
+)
+
 NOT_YET = {}
 
 def main():
